@@ -108,7 +108,7 @@ pub fn seq_cfg(focus: &'static str, seed: u64, index: u64, clean_only: bool) -> 
     let mut allow = Allow::default();
     if known {
         match focus {
-            "C07" => allow.put_on_expired = true,
+            "C07" | "C03" => allow.put_on_expired = true,
             "C08" => { allow.upsert_on_expired = true; allow.upsert_on_soft_deleted = true; allow.remove_ttl_small_weight = rng.chance(1, 3); }
             "C09" => allow.upsert_on_expired = true,
             "C01" => { allow.overweight_update = true; allow.remove_ttl_small_weight = rng.chance(1, 3); }
